@@ -46,6 +46,9 @@ P = {
  'C12': dict(families=[('entry', 200, 3000, 120), ('mixed', 60, 1000, 120), ('entryd6', 60, 600, 120)], aspects='RSD', profiles=['debug', 'release'],
              theorems=['C12_occupied_iff_present', 'C12_step_acts_on_designated_element', 'C12_inserting_call_handle_in_main', 'C12_entry_chain_refines',
                        'C12_raw_entry_chain_refines', 'C12_raw_entry_readonly', 'C12_replace_none_then_insert_one_element', 'C12_no_panic_outside_D6', 'C12_D6_refuted_witness']),
+ 'C17': dict(families=[('capacity', 200, 3000, 120), ('mixed', 150, 2500, 120), ('entry', 60, 1000, 120), ('iter', 60, 1000, 120)], aspects='RSDA', profiles=['debug', 'release'],
+             cross_profile=True,
+             theorems=['C17_profile_independent', 'C17_run_profile_independent', 'C17_no_assertion_fires', 'C17_sizes_fit']),
  'C05': dict(families=[('mixed', 120, 2000, 120), ('entry', 80, 1500, 120), ('iter', 80, 1500, 120)], aspects='RS', profiles=['debug', 'release'],
              theorems=['C05_no_fault', 'C05_cursor_agrees']),
 }
@@ -167,6 +170,27 @@ def run_family(prop, fam, nh, maxops, seed, profile, aspects, rundir, tag='', bu
     res['viol_count_all'] = res['stats'].get('violation_count', 0)
     return res
 
+def cross_profile_diff(ta, tb):
+    """first difference between the transcripts of the same seeded histories from two build profiles
+    (the header's profile flag aside): (history id, line number, line a, line b) or None"""
+    cur = None
+    with open(ta) as fa, open(tb) as fb:
+        n = 0
+        while True:
+            la, lb = fa.readline(), fb.readline()
+            n += 1
+            if not la and not lb:
+                return None
+            if la.startswith('H ') and lb.startswith('H '):
+                xa, xb = la.split(), lb.split()
+                cur = xa[-1]
+                xa[2] = xb[2] = '_'
+                if xa != xb:
+                    return (cur, n, la.strip(), lb.strip())
+                continue
+            if la != lb:
+                return (cur, n, la.strip()[:300], lb.strip()[:300])
+
 def hist_of(text):
     m = re.search(r'history=(\S+?)(?::|\s)op#', text + ' ')
     m2 = re.search(r'history=([a-z]+:\d+:\d+)', text)
@@ -253,6 +277,16 @@ def main():
                     break
             if runs and (runs[-1].get('crashed') or runs[-1]['viol']):
                 break
+    if cfg.get('cross_profile') and okt:
+        # C17: the same seeded histories, run by the two binaries, must give the same transcript
+        for ra in runs:
+            for rb in runs:
+                if ra['family'] == rb['family'] and ra['profile'] == 'debug' and rb['profile'] == 'release' \
+                        and not ra.get('crashed') and not rb.get('crashed'):
+                    d = cross_profile_diff(ra['trace'], rb['trace'])
+                    ra['cross_profile_lines'] = sum(1 for _ in open(ra['trace']))
+                    if d:
+                        ra['viol'].append(dict(property=prop, what=f'history={d[0]} op#? debug and release builds disagree at transcript line {d[1]}: debug [{d[2]}] release [{d[3]}]'))
     diffs = [(r, d) for r in runs for d in r['diffs']]
     viols = [(r, v) for r in runs for v in r['viol']]
     crashed = [r for r in runs if r.get('crashed')]
@@ -326,7 +360,7 @@ def main():
             distinct_nontrivial=classes,
             rule='seeded phase-directed histories (harness/src/gen.rs); a case is one API call on the real crate compared with the Coq model; distinct_nontrivial counts distinct (resize phase x operation kind x key location x main-table-full) classes reached, summed over families',
             samples=samples,
-            families=[dict(family=r['family'], profile=r['profile'], histories=r['histories'], ops=r['ops'], diffs=len(r['diffs']), monitor_violations=len(r['viol'])) for r in runs],
+            families=[dict(family=r['family'], profile=r['profile'], histories=r['histories'], ops=r['ops'], diffs=len(r['diffs']), monitor_violations=len(r['viol']), **({'transcript_lines_identical_in_debug_and_release': r['cross_profile_lines']} if r.get('cross_profile_lines') else {})) for r in runs],
             operation_histogram=opstats,
             model_impl_disagreements=len(diffs),
             proof_problems=problems,
